@@ -22,6 +22,8 @@ if False:
     from .name import Name
     from .project import Project
 
+    T = t.TypeVar('T')
+
 IMPORT_DELIMETERS = string.whitespace + '(,'
 IMPORT_END_DELIMETERS = string.whitespace + '),.;(:#\\'
 
@@ -57,27 +59,38 @@ class Scope(BaseScope):
         return self.top.source.filename
 
 
-def loop_memo(obj):
-    # type: (t.Any) -> dict[str, t.Any]
-    """Where names computed for obj are cached: on obj itself or, while a loop
-    is being resolved, in the memo of that resolution (see LoopFlow)"""
-    if LoopFlow.resolving:
-        return LoopFlow.resolving[-1].setdefault(obj, {})  # type: ignore[no-any-return]
-    return obj.__dict__  # type: ignore[no-any-return]
+def loop_tracked(obj, key, compute):
+    # type: (t.Any, str, t.Callable[[], T]) -> T
+    """compute() cached on obj under key, together with the loop resolutions it
+    depends on (see LoopFlow); such a value is reused only while they all last"""
+    try:
+        value, deps = obj.__dict__[key]
+    except KeyError:
+        pass
+    else:
+        if all(loop._resolving == n for loop, n in deps):
+            if LoopFlow.cut:
+                LoopFlow.cut[-1].update(deps)
+            return value  # type: ignore[no-any-return]
+
+    LoopFlow.cut.append(set())
+    try:
+        value = compute()
+    finally:
+        deps = LoopFlow.cut.pop()
+
+    deps = frozenset(d for d in deps if d[0] is not obj)
+    obj.__dict__[key] = value, deps
+    if LoopFlow.cut:
+        LoopFlow.cut[-1].update(deps)
+    return value
 
 
 class loop_cached_property(cached_property):
     def __get__(self, obj, cls):  # type: ignore[no-untyped-def]
         if obj is None:
             return self
-        memo = loop_memo(obj)
-        name = self.func.__name__
-        try:
-            return memo[name]
-        except KeyError:
-            pass
-        value = memo[name] = self.func(obj)
-        return value
+        return loop_tracked(obj, '_loop_' + self.func.__name__, lambda: self.func(obj))
 
 
 class Flow(object):
@@ -151,48 +164,37 @@ class Flow(object):
 
 
 class LoopFlow(object):
-    # Memos of the loop resolutions in progress, innermost last. While a loop is
-    # being resolved its back edge is cut (names is UNRESOLVED), so every name
-    # table computed meanwhile is valid for that resolution only: it is kept in
-    # the resolution's memo and dropped with it instead of being cached on the
-    # flows, where later queries would pick up the incomplete table.
-    resolving = []  # type: list[dict[t.Any, dict[str, t.Any]]]
-
-    if False:
-        _names = None  # type: t.Mapping[str, Name | MultiName]
+    # While a loop is being resolved its back edge is cut (names is UNRESOLVED),
+    # so a name table computed meanwhile may lack what the loop body binds. Every
+    # table is therefore cached together with the resolutions whose cut edge it
+    # met, directly or through the tables it was built from, and is reused only
+    # while all of them are still in progress; a table that met none is final.
+    cut = []       # type: list[set[tuple[LoopFlow, int]]]  # per computation in progress
+    started = 0    # number of resolutions started so far
 
     def __init__(self, parent):
         # type: (Flow) -> None
         self.parent = parent
-        self._resolving = False
+        self._resolving = 0  # number of the resolution in progress
 
     @property
     def names(self):
         # type: () -> t.Mapping[str, Name | MultiName] | Unresolved
         if self._resolving:
+            if LoopFlow.cut:
+                LoopFlow.cut[-1].add((self, self._resolving))
             return UNRESOLVED
 
-        try:
-            return self._names
-        except AttributeError:
-            pass
+        return loop_tracked(self, '_names', self._resolve)
 
-        memo = loop_memo(self)
+    def _resolve(self):
+        # type: () -> t.Mapping[str, Name | MultiName]
+        LoopFlow.started += 1
+        self._resolving = LoopFlow.started
         try:
-            return memo['_names']  # type: ignore[no-any-return]
-        except KeyError:
-            pass
-
-        self._resolving = True
-        LoopFlow.resolving.append({})
-        try:
-            result = self.parent.names
+            return self.parent.names
         finally:
-            LoopFlow.resolving.pop()
-            self._resolving = False
-
-        memo['_names'] = result
-        return result
+            self._resolving = 0
 
 
 class SourceScope(Scope):
